@@ -102,10 +102,34 @@ def run(ctx):
         ups = rescind_updates()
         if len(ups) != 2:
             raise AnchorMissing("rescind: expected 2 atomic update sites (two-party fast path + general path), found %d" % len(ups))
+        def inverse_guard(g):
+            """the guards on the voter's `inverse` mask as a predicate over mask values (None when there is none)"""
+            import re as _re
+            tests = []
+            for d, l, _ in g:
+                m = _re.match(r"^(Lt|Le|Gt|Ge|Eq|Ne)\(self\.inverse, (\d+)\)$", d)
+                if m and l in ("true", "false"):
+                    tests.append((m.group(1), int(m.group(2)), l == "true"))
+            if not tests:
+                return None
+            ops = {"Lt": lambda a, b: a < b, "Le": lambda a, b: a <= b, "Gt": lambda a, b: a > b, "Ge": lambda a, b: a >= b, "Eq": lambda a, b: a == b, "Ne": lambda a, b: a != b}
+            return lambda v: all(ops[o](v, k) == want for o, k, want in tests)
+
+        def is_two_party(c, kind):
+            # the fast path: a CAS from `only my bit` to `nothing`, which never looks at the other parties' bits
+            return kind == "cas" and describe_operand(resc, c.args[1]).endswith(".flag") and describe_operand(resc, c.args[2]) == "0"
+        # masks: a coordinator of n parties gives party i the flag 1 << i and inverse = all & !flag
+        INV = {n: sorted(((1 << n) - 1) & ~(1 << i) for i in range(n)) for n in (2, 3)}
         for c, ok_e, err_e, kind in ups:
             g = guards(resc, c.block)
-            two = any(d == "Lt(self.inverse, 3)" and l == "true" for d, l, _ in g)
+            pred = inverse_guard(g)
+            two = is_two_party(c, kind) or (pred is not None and all(pred(v) for v in INV[2]) and not any(pred(v) for v in INV[3]))
             path = "two-party" if two else "general"
+            if is_two_party(c, kind):
+                sel = pred is not None and all(pred(v) for v in INV[2]) and not any(pred(v) for v in INV[3])
+                r.check(sel, "rescind/two-party/only-for-two", c.loc(), "the fast path is selected exactly for the masks of a two-party coordinator %s, never for a three-party one %s" % (INV[2], INV[3]),
+                        "the two-party fast path (compare_exchange(flag, 0), which fails whenever another party has voted and then reports Unanimous) is also taken by a voter of a three-party coordinator "
+                        "(masks %s accepted by the guard): with one other vote outstanding its rescind does nothing and answers Unanimous" % [v for v in INV[3] if pred is not None and pred(v)])
             r.check(kind in ("cas", "fetch_update") and ok_e is not None, "rescind/%s/write-is-conditional-rmw" % path, c.loc(), "flags changed with %s whose outcome is examined" % c.name,
                     "rescind writes flags with %s (not a conditional read-modify-write whose result is examined)" % c.name)
             if kind == "cas":
@@ -130,8 +154,6 @@ def run(ctx):
                 r.check(okc, "rescind/%s/update-clears-own-bit" % path, c.loc(), "the update closure computes current & !flag", "the fetch_update closure does not clear exactly the own bit")
                 if not two:
                     r.check(refuse, "rescind/general/refuse-when-unanimous", c.loc(), "the update closure refuses (None) when current == unanimity", "the update may clear a bit after unanimity was reached")
-            if two:
-                r.check(True, "rescind/two-party/only-for-two", c.loc(), "fast path taken only when inverse < TWO_VOTERS_LIM")
         for blk, line in ret_blocks(resc, "VoteResult", "Unanimous"):
             g = guards(resc, blk)
             good = any((d.startswith("Eq(load(") and l == "true") or (d.startswith("is_err(compare_exchange(") and l == "true") or (d.startswith("is_ok(compare_exchange(") and l == "false")
@@ -149,7 +171,7 @@ def run(ctx):
                 continue
             n += 1
             g = guards(resc, c.block)
-            path = "two-party" if any(d == "Lt(self.inverse, 3)" and l == "true" for d, l, _ in g) else "general"
+            path = "two-party" if (kind == "cas" and describe_operand(resc, c.args[1]).endswith(".flag") and describe_operand(resc, c.args[2]) == "0") else "general"
             ok, wit = resc.must_pass([ok_e], clears)
             r.check(ok and bool(clears), "rescind/%s/success=>voted:=false" % path, c.loc(),
                     "a successful rescind clears `voted`",
